@@ -5,7 +5,7 @@ import subprocess
 from . import core, vcdgen, tables
 from .c05 import corpus_requests
 
-RULE = ("generated VCD files (several changes per time step = delta groups, gaps between table entries, first timestamp > 0) are loaded by the real pywellen extension module "
+RULE = ("generated VCD files (several changes per time step = delta groups, gaps between table entries, first timestamp > 0, vectors of 63..200 bits) are loaded by the real pywellen extension module "
         "under CPython (built from /repo with cargo) and by the Rust API (harness `pydump`); for every variable the Python side reports all_changes(), value_at_idx(i) for "
         "i = 0..len+1, value_at_time(t) for t = entry-1, entry, entry+1 of every table entry, 0 and max+10, and time_table[-1], [0], [len], [-len]. The Lean model of the binding "
         "(on top of the get_offset model) and the latest-at-or-before specification are evaluated on the Rust-side change list. non-trivial = the variable has a change; "
@@ -36,6 +36,9 @@ def gen_files(ctx):
     for k in range(40 if ctx.tier == "quick" else 600):
         vars_ = vcdgen.gen_vars(rng, nvars=rng.choice([1, 2, 4]), style="dense")
         vars_ = [(i, t if not t.startswith("b") or int(t[1:]) <= 70 else "b9") for i, t in vars_]
+        if k % 4 == 0:
+            # wide vectors around the 64-bit boundary and beyond (Python ints are unbounded: every bit must arrive)
+            vars_ = [(i, "b" + str(rng.choice([63, 64, 65, 66, 68, 71, 72, 73, 127, 128, 129, 200]))) for i, _ in vars_]
         body = vcdgen.gen_body(rng, vars_, nsteps=rng.choice([1, 3, 6, 12]), line_disciplined=True, first_line=b"",
                                back_p=0.05, rep_p=0.15, comment_p=0.0)
         hdr = b"$timescale 1ns $end\n$scope module top $end\n"
